@@ -240,6 +240,8 @@ def _field_reads(sl, fields, body=None):
         for _, _, node in sl:
             rv = node.get('rv')
             if rv and rv['k'] == 'agg' and rv.get('ak') == 'closure' and rv.get('def'):
+                if strip_generics(rv['def']) in (body.raw.get('inlined_closures') or []):
+                    continue          # its code is part of this body already: the slice sees exactly what it reads for this value
                 for x in body.fb.bodies(body.crate):
                     if x.id == rv['def']:
                         for bb, blk in enumerate(x.blocks):
@@ -341,6 +343,19 @@ def r3_attribute_plumbing(ctx):
                   sl, _ = backward_slice(body, pl['l'], defs)
                   gov |= _field_reads(sl, fields, body)
                   state_reads |= _session_state_reads(sl)
+                  # which of several definitions of the value is taken is part of what governs it (`(kind == Persistent).then(|| ttl)`):
+                  # the tests that decide between the Some(..) / None definitions of an optional value
+                  optdefs = [(sb_, nd) for sb_, _, nd in sl if 'rv' in nd and nd['rv']['k'] == 'agg' and nd['rv'].get('var') in ('Some', 'None')
+                             and strip_generics(nd['rv'].get('adt', '')) == 'core::option::Option']
+                  if len({nd['rv']['var'] for _, nd in optdefs}) == 2:
+                      for sb_, nd in optdefs:
+                          for cb_, cw in _controlling_switches(body, sb_):
+                              if (cb_, id(cw)) in {(x, id(y)) for x, y in _controlling_switches(body, bb)}:
+                                  continue
+                              q = op_place(cw['d'])
+                              if q is not None:
+                                  s2, _ = backward_slice(body, q['l'], defs)
+                                  gov |= _field_reads(s2, fields, body)
           for sb, st in _controlling_switches(body, bb):
               pl = op_place(st['d'])
               if pl is not None:
